@@ -6,7 +6,10 @@ negative indices, `x = y` copies, re-assignment, TUPLE ASSIGNMENTS between lists
 literals, repeated names and new names outside the guard), lists returned by user functions, lists local to the main
 loop, lists passed by value to user functions, lists shared between setup() and the main loop, INDICES BUILT FROM len()
 (`x[len(y) - 1]`, `x[2 - len(y)]`: the parser folds len() to the length of its parse-time copy of the list) next to append / remove of
-RUN-TIME scalars (`x.remove(c + 1)`, c read from a sensor in every pass)) are
+RUN-TIME scalars (`x.remove(c + 1)`, c read from a sensor in every pass), LISTS RETURNED BY FUNCTIONS THAT RETURN ONE OF THEIR LIST
+ARGUMENTS (`x = sel(y, z, c)`: a by-value struct, i.e. a shallow copy of a list chosen at run time, assigned to a declared list; also `x = ident(y)`,
+`x = y`, `x = y if c > t else z`), len() INSIDE FUNCTION BODIES whose parameter carries the name of a global list of another length
+(`def h(l0): return l0[len(l0) - 1]` called with l1; `for i in range(len(l0))` over the parameter; len() of a global inside a function)) are
   * run as statements by the extracted Coq model (coq/Wire/C09W.v: parser's choice of emitted form, the list helper
     templates as heap transformers, setup() + N passes of loop(), and the CPython reference semantics),
   * executed under real CPython (harness/impl/c09_impl.py: printed values, live list data after every phase),
@@ -15,7 +18,8 @@ RUN-TIME scalars (`x.remove(c + 1)`, c read from a sensor in every pass)) are
 Correspondence: model firmware run vs real firmware (printed values, live blocks, live bytes per phase, class of the
 memory error), model CPython run vs real CPython.  Oracle (statement of C09 on the real artefacts, inside the guard):
 a script that CPython runs without exception must run clean under the sanitizers, and whenever CPython's live list
-data is the same after two consecutive passes the firmware's live heap bytes are the same too.
+data (counted per object AND per name - the firmware keeps one copy per name where Python aliases, finding
+F-C09-call-result-copy-heap-varies) is the same after two consecutive passes the firmware's live heap bytes are the same too.
 """
 from __future__ import annotations
 
@@ -29,7 +33,7 @@ from harness import fw
 META = {
     "id": "C09",
     "technique": "Coq proof (heap model of the emitted list helper templates; single-owner invariant by induction over statements and passes; simulation of the CPython reference semantics) + extracted-model correspondence with the real transpiler's firmware compiled with clang++ ASan/UBSan and an interposed allocation counter + CPython reference run + property oracle on the sanitizer verdict and per-pass heap usage",
-    "level_text": "Theorems C09_* (coq/Props/C09.v): every list helper is safe iff Python's index condition holds and frees exactly what it replaces (all heaps, all lists), also when the `const T&` argument of append/remove refers into a list buffer - of the same list included (C09_argument_alias_safe); tuple assignments that permute declared lists keep every buffer single-owned (values after = permutation of values before, proved for all permutations); for every single-owner list program and every number of passes the firmware is memory-safe whenever CPython raises no exception, every reachable heap holds exactly the cells of the live lists, and heap usage follows Python's live data (partial: guard single_owner). Refuted with witnesses reproduced on the real firmware under ASan: `b = a` aliasing (use after free, double free), by-value list parameter mutated by the callee, list locals of the main loop and re-assignment temporaries (one block leaked per pass), `c = a` deep copy vs Python alias (heap grows while Python's live data is constant), `a = ident(a)` (__redu_list_assign from a temporary sharing the buffer: use after free), `a, b = [..], a` (tuple assignment drops a buffer without delete[]: leak); the parser's parse-time copy of every list and the folding of len() are inside the model (coq/Device/DListLen.v): C09_len_fold_safe_partial / C09_len_fold_no_leak_partial - for every script of the len() layer inside the guard len_ok, every sequence of run-time values and every number of passes, CPython free of exceptions implies a memory-safe firmware run with the FOLDED lengths; refuted with witnesses reproduced under ASan: folded len() stale through an untaken branch, in a later pass of an unbalanced loop body, after a re-binding inside a branch, after remove(<run-time value>) dropped the wrong entry of the copy (out-of-bounds reads).",
+    "level_text": "Theorems C09_* (coq/Props/C09.v): every list helper is safe iff Python's index condition holds and frees exactly what it replaces (all heaps, all lists), also when the `const T&` argument of append/remove refers into a list buffer - of the same list included (C09_argument_alias_safe); tuple assignments that permute declared lists keep every buffer single-owned (values after = permutation of values before, proved for all permutations); for every single-owner list program and every number of passes the firmware is memory-safe whenever CPython raises no exception, every reachable heap holds exactly the cells of the live lists, and heap usage follows Python's live data (partial: guard single_owner). Refuted with witnesses reproduced on the real firmware under ASan: `b = a` aliasing (use after free, double free), by-value list parameter mutated by the callee, list locals of the main loop and re-assignment temporaries (one block leaked per pass), `c = a` deep copy vs Python alias (heap grows while Python's live data is constant), `a = ident(a)` (__redu_list_assign from a temporary sharing the buffer: use after free), `a, b = [..], a` (tuple assignment drops a buffer without delete[]: leak); the parser's parse-time copy of every list and the folding of len() are inside the model (coq/Device/DListLen.v): C09_len_fold_safe_partial / C09_len_fold_no_leak_partial - for every script of the len() layer inside the guard len_ok, every sequence of run-time values and every number of passes, CPython free of exceptions implies a memory-safe firmware run with the FOLDED lengths; refuted with witnesses reproduced under ASan: folded len() stale through an untaken branch, in a later pass of an unbalanced loop body, after a re-binding inside a branch, after remove(<run-time value>) dropped the wrong entry of the copy (out-of-bounds reads). Third round: read-only sharing (coq/Device/DListProg.v frozen_ok, proofs coq/Proofs/DListShareP.v) - C09_shared_result_python_safe_partial / C09_shared_result_no_leak_partial: for every history in which lists are assigned from calls that return one of their list arguments (the source chosen at run time, different from pass to pass), from other lists and from conditional expressions, the names involved being otherwise only read, CPython free of exceptions implies a memory-safe firmware run in which every name owns its own buffer and the heap holds CPython's live data counted per name (simulation relation that admits Python aliases between read-only names); refuted: heap usage varies while Python's live data per object is constant (C09_shared_result_heap_varies_refuted). Function scope of len() folding (fn_env, first_env): a parameter is never folded whatever global it shadows (C09_fn_param_never_folded, C09_fn_param_len_is_argument_len), a global keeps the copy of the place where the function's list variant is parsed - its FIRST call (C09_fn_global_keeps_def_copy); calls `h(x)` with `def h(P): return P[len(Y) + k]` are inside C09_len_fold_safe_partial; refuted: len() of a global inside a function is stale at a later call (C09_stale_len_first_call_refuted).",
     "level_note": "Trusted: Coq kernel, extraction (ExtrOcamlBasic), OCaml driver, mock Arduino core (operator new[]/delete[] interposed: live-block/byte counter), clang++ 14 AddressSanitizer/UBSan as the memory checker, CPython 3.12 as the reference. The theorems are about the Gallina heap model; the correspondence bounds its distance from emitter.py's LIST_HELPER_SNIPPET and parser.py's assignment lowering. Element values are ints; String buffers, C int overflow of range(), control flow around list statements and the heap behaviour of the real AVR allocator are outside the model.",
     "design_ref": "DESIGN.md section 4 C09",
 }
@@ -1658,7 +1662,14 @@ def run(ctx: C.Ctx):
                 "(rotation by the RUN-TIME value `l0.remove(c + off); l0.append(c + off)` - also append first -, by an own element, by a constant of the list, by a fresh constant), "
                 "25 % an ungated permutation, 2-4 reads `x[len(y) + k]` / `x[k - len(y)]` (y = x 70 %; target index boundary-heavy: len-1, 0, -1, -len, random) under gates -1 / 0 / 1 / 2, "
                 "optional plain read; len-out applies one stale-copy change: a gate on an append / remove, one statement of a pair dropped, a gated permutation, a constant remove of the "
-                "copy's first entry after the run-time remove. Every "
+                "copy's first entry after the run-time remove; (f) kind share-in / share-out (frozen_ok): 2-3 source lists and 1-2 target lists (75 % of one length, literals / comprehensions), optionally a "
+                "single-owner list w; loop body = 1-3 assignments into a target - 60 % `x = sel_t(y, z, c)` (def sel_t(a, b, k): if k > t: return a / return b; t in 0, 1, 2 against the three input patterns, so the "
+                "returned list alternates between passes), `x = y if c > t else z`, `x = ident(y)` and `x = y` (plain / gated) -, 30 % a first copy before the loop, 1-4 reads (plain / by-value call, boundary indices "
+                "valid for every list of the group), w.append(y[i]); w.remove(w[-1]) with y shared; share-out additionally appends to / removes from a shared name; (g) kind fn-in / fn-out (fn_env / first_env, wire mode 2): "
+                "2-3 lists of pairwise DIFFERENT lengths (+ a list rotated by the run-time value), 2-4 calls r = h(x) of `def h(l_p): return l_p[len(l_y) + k]` / `l_p[k - len(l_y)]` whose parameter l_p is, two times out of "
+                "three, the NAME OF ANOTHER GLOBAL LIST (shadowing; else the argument's own name or a fresh name), y = the parameter (70 %) or a global, target index boundary-heavy, gates -1 / 0 / 1; 60 % a call of "
+                "`def walk(l_p): for i in range(len(l_p)): mon.write(l_p[i])` with a shadowing parameter of a LONGER global; the defs stand after every list declaration, right in front of `while True:`; fn-out calls a function "
+                "that reads len() of a global once before and once after that global shrank. Every "
                 "part is classified by the model; parts it expects to run safely are batched 10 per sketch (disjoint names), the others "
                 "run one per sketch (quick tier: a seeded sample). evaluations = phases (setup + passes) of in-guard exception-free "
                 "sketches judged by the oracle + 1 per other sketch compared; distinct non-trivial = distinct parts with more than 2 statements.",
@@ -1669,12 +1680,16 @@ def run(ctx: C.Ctx):
         "exhaustive": False,
         "exhaustive_part": f"loop bodies of length <= {3 if thorough else 2} over the 16-statement alphabet (classified by the model; "
                       f"{'all' if thorough else 'a seeded sample of the unsafe ones'} run on the firmware)",
-        "guard": "single_owner (coq/Device/DListProg.v; harness guard_py cross-checked against it on every case): lists are declared "
+        "guard": "single_owner OR len_ok OR frozen_ok (harness guard_so / track_py / guard_fz, each cross-checked against the model's bit on every case). frozen_ok (read-only sharing): lists declared before the loop under fresh names; "
+                 "the names that occur in `x = <call returning the list y>` / `x = y` (x != y, both declared) are otherwise only read (index, by-value read-only call, element argument of another list's append/remove) or re-assigned "
+                 "among each other; the other names: append / remove / index / `x = x` / element arguments; no tuple assignment; the leak clause is evaluated between two passes only when CPython's live data is the same per object "
+                 "and per name (F-C09-call-result-copy-heap-varies). len_ok additionally admits calls of `def h(P): return P[len(Y) + k]` in the main loop with Y = the parameter (any parameter name) or a global whose parse-time copy has "
+                 "at every call the length it had at the function's first call (F-C09-stale-len-function-first-call-out-of-bounds). single_owner (coq/Device/DListProg.v): lists are declared "
                  "before the main loop from a literal or a range comprehension, each under a fresh name; afterwards only append / remove / "
                  "index / by-value read-only call / `x = x` / `x.append(y[i])`, `x.remove(y[i])` with x, y declared (possibly the same) / tuple assignment "
                  "whose right-hand sides are its (declared, pairwise different) targets in another order. Outside (listed findings): tuple assignment with a literal "
-                 "(F-C09-tuple-assignment-literal-leak), list assigned from a function call (F-C09-assign-from-call-self-alias-use-after-free), len() of a list "
-                 "used as an index (F-C09-stale-len-out-of-bounds; never generated), `b = a` (F-C09-alias-use-after-free, "
+                 "(F-C09-tuple-assignment-literal-leak), a list assigned from a call that returns THAT list (`a = ident(a)`: F-C09-assign-from-call-self-alias-use-after-free), stale folded len() "
+                 "(F-C09-stale-len-*: outside len_ok), `b = a` (F-C09-alias-use-after-free, "
                  "F-C09-alias-double-free, F-C09-clone-divergence-heap-growth, F-C09-clone-divergence-out-of-bounds), re-assignment from a literal or comprehension (F-C09-reassign-temporary-leak), list first "
                  "assigned inside the main loop (F-C09-loop-local-leak), function mutating its list parameter "
                  "(F-C09-byvalue-param-use-after-free). Oracle also requires CPython to run the script without any exception. Programs "
@@ -1687,7 +1702,9 @@ def run(ctx: C.Ctx):
                        "subscript stores `a[i] = v` (the transpiler drops the line: C07's domain; the model keeps list_set as a helper-level operation only)",
                        "allocator behaviour of the real AVR heap (fragmentation, new[] failure); out-of-bounds reads that ASan cannot see "
                        "(1-4 ints before the buffer fall into the mock counter's own header: counted in distribution.oob_not_detected_by_asan)",
-                       "len() outside an index of the forms `len(y) + k`, `k - len(y)` (`n = len(a)` stored in a variable, `for i in range(len(a))`, len() of strings / literals, len() in conditions); "
+                       "len() outside an index of the forms `len(y) + k`, `k - len(y)` at statement level or as the returned subscript of a one-parameter function (`n = len(a)` stored in a variable, len() of strings / literals, len() in conditions; "
+                       "`for i in range(len(a))` is exercised at harness level only: expanded to the reads the model is sent); functions with several list parameters, functions that build and return a FRESH list, conditional expressions mixing a name with a list literal (the temporary leaks: outside every guard); "
+                       "the order in which function variants of different signatures are parsed (one list signature per function here); "
                        "list literals with run-time elements (`[1, c]`: no parse-time copy); run-time scalars other than `c + off` with c read once per pass, run-time scalars before the main loop",
                        "append/remove arguments that are expressions over list elements (`a.append(a[0] + 1)`: a temporary, by value); list literals built from elements of lists (`b = [a[1], a[0]]`)",
                        "tuple assignments that mix lists and scalars, or declare some targets and assign others inside setup() (the new names become locals of setup(): C06's domain)",
@@ -1696,7 +1713,7 @@ def run(ctx: C.Ctx):
             "mock/mock_core.cpp operator new[]/delete[] interposition (live blocks / bytes, sampled after setup() and every pass), mock Serial printing",
             "clang++ 14 -fsanitize=address,undefined -O0 as the memory checker (halting on the first report; class read from its SUMMARY line)",
             "harness/fw.py, harness/impl/transpile_impl.py (real parse+emit), harness/impl/c09_impl.py (CPython exec of the same lines; live data = total length of distinct list objects bound to module names)",
-            "harness/props/c09.py: script text of a statement, guard_py / track_py (cross-checked against the model's single_owner / len_ok on every case), classification of sanitizer reports"],
+            "harness/props/c09.py: script text of a statement, guard_so / guard_fz / track_py (cross-checked against the model's single_owner / frozen_ok / len_ok on every case), history() (which list a `sel` call returns in which pass), classification of sanitizer reports"],
     })
     ctx.assumptions += ["the mock core + ASan/UBSan define 'memory error' (DESIGN.md section 3); freed blocks are quarantined, so a stale pointer never aliases a newer block during a run",
                         "sizeof(int) = 4 under the mock (live bytes = 4 * live cells)",
